@@ -1,0 +1,201 @@
+//! Verification hooks (only compiled with `--features cicada_verif`).
+//!
+//! Thin re-exports / wrappers of existing crate-private items so that an
+//! external model-checking harness can drive the real code. Nothing here
+//! changes behaviour: `waitpid` forwards to the real system call unless a
+//! harness installed a fake kernel for the current thread.
+#![allow(dead_code)]
+use std::cell::RefCell;
+
+use nix::sys::wait::{WaitPidFlag, WaitStatus as NixWaitStatus};
+use nix::unistd::Pid;
+
+pub use crate::shell::Shell;
+pub use crate::types::{Command, CommandLine, CommandResult, Job, LineInfo, Redirection, Tokens};
+pub use crate::types::WaitStatus;
+
+pub type FakeWaitpid = Box<dyn FnMut(i32, bool) -> nix::Result<NixWaitStatus>>;
+
+thread_local! {
+    static FAKE_WAITPID: RefCell<Option<FakeWaitpid>> = RefCell::new(None);
+}
+
+/// Install (or remove) a fake `waitpid` for the current thread. The closure
+/// receives the requested pid and whether the call would block.
+pub fn install_fake_waitpid(f: Option<FakeWaitpid>) {
+    FAKE_WAITPID.with(|c| *c.borrow_mut() = f);
+}
+
+/// The seam used by `jobc::waitpidx` and `signals::handle_sigchld`.
+pub fn waitpid<P: Into<Option<Pid>>>(pid: P, options: Option<WaitPidFlag>) -> nix::Result<NixWaitStatus> {
+    let pid: Option<Pid> = pid.into();
+    let has_fake = FAKE_WAITPID.with(|c| c.borrow().is_some());
+    if has_fake {
+        let raw = pid.map(|p| p.as_raw()).unwrap_or(-1);
+        let block = !options.map(|o| o.contains(WaitPidFlag::WNOHANG)).unwrap_or(false);
+        // take the closure out while it runs so that it may itself call hooks
+        let mut f = FAKE_WAITPID.with(|c| c.borrow_mut().take()).unwrap();
+        let r = f(raw, block);
+        FAKE_WAITPID.with(|c| {
+            let mut slot = c.borrow_mut();
+            if slot.is_none() {
+                *slot = Some(f);
+            }
+        });
+        return r;
+    }
+    nix::sys::wait::waitpid(pid, options)
+}
+
+pub fn parse_line(line: &str) -> LineInfo {
+    crate::parsers::parser_line::parse_line(line)
+}
+
+pub fn line_to_cmds(line: &str) -> Vec<String> {
+    crate::parsers::parser_line::line_to_cmds(line)
+}
+
+pub fn tokens_to_line(tokens: &Tokens) -> String {
+    crate::parsers::parser_line::tokens_to_line(tokens)
+}
+
+pub fn tokens_to_redirections(tokens: &Tokens) -> Result<(Tokens, Vec<Redirection>), String> {
+    crate::parsers::parser_line::tokens_to_redirections(tokens)
+}
+
+pub fn command_from_tokens(tokens: Tokens) -> Result<Command, String> {
+    Command::from_tokens(tokens)
+}
+
+pub fn command_line_from_line(line: &str, sh: &mut Shell) -> Result<CommandLine, String> {
+    CommandLine::from_line(line, sh)
+}
+
+pub fn do_expansion(sh: &mut Shell, tokens: &mut Tokens) {
+    crate::shell::do_expansion(sh, tokens)
+}
+
+pub fn expand_args(line: &str, args: &[String]) -> String {
+    crate::scripting::verif_expand_args(line, args)
+}
+
+pub fn run_command_line(sh: &mut Shell, line: &str, tty: bool, capture: bool) -> Vec<CommandResult> {
+    crate::execute::run_command_line(sh, line, tty, capture)
+}
+
+pub fn run_script(sh: &mut Shell, args: &Vec<String>) -> i32 {
+    crate::scripting::run_script(sh, args)
+}
+
+pub fn run_lines(sh: &mut Shell, lines: &str, args: &Vec<String>, capture: bool) -> Vec<CommandResult> {
+    crate::scripting::run_lines(sh, lines, args, capture)
+}
+
+pub fn is_arithmetic(line: &str) -> bool {
+    crate::tools::is_arithmetic(line)
+}
+
+pub fn run_calculator(line: &str) -> Result<String, String> {
+    crate::core::run_calculator(line).map_err(|e| e.to_string())
+}
+
+/// The script grammar's parse tree as nested rule names, e.g.
+/// `EXP(CMD,EXP_IF(IF_IF_BR(IF_HEAD(TEST),EXP_BODY(CMD))))`.
+pub fn script_shape(text: &str) -> Result<String, String> {
+    fn walk(out: &mut String, pairs: pest::iterators::Pairs<crate::parsers::locust::Rule>) {
+        let mut first = true;
+        for pair in pairs {
+            if !first {
+                out.push(',');
+            }
+            first = false;
+            out.push_str(&format!("{:?}", pair.as_rule()));
+            let inner = pair.into_inner();
+            if inner.clone().next().is_some() {
+                out.push('(');
+                walk(out, inner);
+                out.push(')');
+            }
+        }
+    }
+    match crate::parsers::locust::parse_lines(text) {
+        Ok(pairs) => {
+            let mut out = String::new();
+            walk(&mut out, pairs);
+            Ok(out)
+        }
+        Err(e) => Err(format!("{:?}", e)),
+    }
+}
+
+pub fn wait_fg_job(sh: &mut Shell, gid: i32, pids: &[i32]) -> CommandResult {
+    crate::jobc::wait_fg_job(sh, gid, pids)
+}
+
+pub fn try_wait_bg_jobs(sh: &mut Shell, report: bool, sig_handler_enabled: bool) {
+    crate::jobc::try_wait_bg_jobs(sh, report, sig_handler_enabled)
+}
+
+pub fn handle_sigchld() {
+    crate::signals::handle_sigchld(libc::SIGCHLD)
+}
+
+pub fn mark_job_as_running(sh: &mut Shell, gid: i32, bg: bool) {
+    crate::jobc::mark_job_as_running(sh, gid, bg)
+}
+
+pub fn get_job_line(job: &Job, trim: bool) -> String {
+    crate::jobc::get_job_line(job, trim)
+}
+
+/// (reap map, stop map, cont map, kill map), each sorted.
+pub fn maps_snapshot() -> (Vec<(i32, i32)>, Vec<i32>, Vec<i32>, Vec<(i32, i32)>) {
+    crate::signals::verif_maps()
+}
+
+pub fn maps_reset() {
+    crate::signals::verif_reset_maps()
+}
+
+/// Path completion as the line editor would ask for it:
+/// (completion text, suffix) with suffix `None` = editor default (a blank).
+pub fn complete_path(word: &str, for_dir: bool) -> Vec<(String, Option<char>)> {
+    use lineread::complete::Suffix;
+    crate::completers::path::complete_path(word, for_dir)
+        .into_iter()
+        .map(|c| {
+            let suffix = match c.suffix {
+                Suffix::Default => None,
+                Suffix::None => Some('\0'),
+                Suffix::Some(ch) => Some(ch),
+            };
+            (c.completion, suffix)
+        })
+        .collect()
+}
+
+pub fn escaped_word_start(line: &str) -> usize {
+    crate::completers::escaped_word_start(line)
+}
+
+/// Byte ranges produced by the highlighter for `line`.
+pub fn highlight(line: &str) -> Vec<(usize, usize)> {
+    use lineread::highlighting::Highlighter;
+    crate::highlight::CicadaHighlighter
+        .highlight(line)
+        .into_iter()
+        .map(|(r, _)| (r.start, r.end))
+        .collect()
+}
+
+pub fn trim_multiline_prompts(line: &str) -> String {
+    crate::shell::trim_multiline_prompts(line)
+}
+
+pub fn extend_bangbang(sh: &Shell, line: &mut String) {
+    crate::tools::extend_bangbang(sh, line)
+}
+
+pub fn init_path_env() {
+    crate::tools::init_path_env()
+}
